@@ -129,7 +129,7 @@ package scan
 //   otherwise           -> exactly one packet carrying the buffer that was filled for this request
 // (send? = the guarded send: sent, or the scan was cancelled)
 //@ func (*packetGenerator).Packets$1
-//@   props C07 C13 C12 C01 C19 C05 C11 C16
+//@   props C07 C13 C12 C01 C19 C05 C11 C16 C02 C17
 //@   observe NewSerializeBuffer, Fill
 //@   loop 0 row cancel:  [ctxdone ; close out] -> exit
 //@   loop 0 row closed:  [recv in as (r, false) ; close out] -> exit
@@ -141,12 +141,12 @@ package scan
 //@                            when r.Err == nil && ferr == nil && x.Buf == buf && x.Err == nil && newobj(x) -> continue
 //@   loop 0 row fill_c:    [recv in as (r, true) ; call NewSerializeBuffer() as (buf) ; call Fill(g.filler, buf, r) as (ferr) ; ctxdone] when r.Err == nil -> continue
 //@ func (*packetGenerator).Packets
-//@   props C07 C16 C01 C19 C05 C11 C13 C12
+//@   props C07 C16 C01 C19 C05 C11 C13 C12 C02 C17
 //@   entry row start: [go (*packetGenerator).Packets$1] -> exit
 
 // multi-generator: exactly numWorkers generator instances, all reading the same request channel, merged
 //@ func (*packetMultiGenerator).Packets
-//@   props C07 C16 C01 C19 C13 C05 C11 C12
+//@   props C07 C16 C01 C19 C13 C05 C11 C12 C02 C17
 //@   observe Packets, MergeBufferDataChan
 //@   requires g.numWorkers >= 0
 //@   loop 0 invariant bounds: 0 <= i && i <= g.numWorkers && len(workers) == g.numWorkers
@@ -156,18 +156,18 @@ package scan
 // merger: every element received from a worker is forwarded once; the output is closed only after all
 // multiplexers have returned
 //@ func MergeBufferDataChan$1
-//@   props C07 C12 C01 C19 C13 C05 C11 C16
+//@   props C07 C12 C01 C19 C13 C05 C11 C16 C02 C17
 //@   observe (*sync.WaitGroup).Done
 //@   loop 0 row cancel:  [ctxdone ; call Done(_)] -> exit
 //@   loop 0 row closed:  [recv c as (e, false) ; call Done(_)] -> exit
 //@   loop 0 row forward: [recv c as (e, true) ; send out e] -> continue
 //@   loop 0 row fwd_c:   [recv c as (e, true) ; ctxdone ; call Done(_)] -> exit
 //@ func MergeBufferDataChan$2
-//@   props C07 C12 C16 C01 C19 C13 C05 C11
+//@   props C07 C12 C16 C01 C19 C13 C05 C11 C02 C17
 //@   observe (*sync.WaitGroup).Wait
 //@   entry row closer: [call Wait(_) ; close out] -> exit
 //@ func MergeBufferDataChan
-//@   props C07 C12 C16 C01 C19 C13 C05 C11
+//@   props C07 C12 C16 C01 C19 C13 C05 C11 C02 C17
 //@   observe (*sync.WaitGroup).Add
 //@   entry row setup: [call Add(_, len(channels))] -> loop 0
 //@   loop 0 row spawn:  [go MergeBufferDataChan$1] -> continue
@@ -175,14 +175,14 @@ package scan
 
 // packet source: a generator that fails to start yields exactly one error packet on a closed channel
 //@ func (*packetSource).Packets
-//@   props C07 C13 C16 C12 C01 C19 C05 C11
+//@   props C07 C13 C16 C12 C01 C19 C05 C11 C02 C17
 //@   observe GenerateRequests, Packets
 //@   entry row generr: [call GenerateRequests(s.reqgen, ctx, r) as (reqs, gerr) ; send bind_c bind_x ; close bind_c2] when gerr != nil && c == c2 && ret == c && x.Err == gerr && x.Buf == nil -> exit
 //@   entry row ok:     [call GenerateRequests(s.reqgen, ctx, r) as (reqs, gerr) ; call Packets(s.pktgen, ctx, reqs) as (pk)] when gerr == nil && ret == pk -> exit
 
 // packet engine: the source feeds the sender, completion = the sender's done, both error streams are merged
 //@ func (*PacketEngine).Start
-//@   props C07 C16 C12 C01 C20 C19 C13 C03 C08 C14 C15 C06 C09 C10
+//@   props C07 C16 C12 C01 C20 C19 C13 C03 C08 C14 C15 C06 C09 C10 C11
 //@   observe Packets, SendPackets, ReceivePackets, mergeErrChan
 //@   entry row wiring: [call Packets(e.src, ctx, r) as (pk) ; call SendPackets(e.snd, ctx, pk) as (done, errc1) ; call ReceivePackets(e.rcv, ctx) as (errc2) ; call mergeErrChan(ctx, bind_cs) as (m)]
 //@                       when ret0 == done && ret1 == m && len(cs) == 2 && cs[0] == errc1 && cs[1] == errc2 -> exit
@@ -255,7 +255,7 @@ package scan
 // cancellation or starts exactly one new pass. The only exit is cancellation; a pass that fails to start
 // leaves the loop alive (the next read blocks until cancellation).
 //@ func (*liveRequestGenerator).GenerateRequests$1
-//@   props C19 C12 C01 C02 C07 C13 C17 C04 C05 C08
+//@   props C19 C12 C01 C02 C07 C13 C17 C04 C05 C08 C11
 //@   observe time.After, GenerateRequests
 //@   loop 0 row forward:   [recv pre(requests) as (rq, true) ; send? out rq] -> continue
 //@   loop 0 row pass_end:  [recv pre(requests) as (rq, false) ; call time.After(rg.rescanTimeout) as (t) ; recv t as (_, _) ; call GenerateRequests(rg.delegate, ctx, r) as (nr, e)]
@@ -265,7 +265,7 @@ package scan
 //@   loop 0 row cancel_t:  [ctxdone ; call time.After(rg.rescanTimeout) as (t) ; recv t as (_, _) ; call GenerateRequests(rg.delegate, ctx, r) as (nr, e)]
 //@                            when requests == nr -> continue
 //@ func (*liveRequestGenerator).GenerateRequests
-//@   props C19 C01 C02 C07 C13 C17 C04 C05 C08 C12
+//@   props C19 C01 C02 C07 C13 C17 C04 C05 C08 C12 C11
 //@   observe GenerateRequests
 //@   entry row fail:  [call GenerateRequests(rg.delegate, ctx, r) as (rq, e)] when e != nil && ret0 == nil && ret1 == e -> exit
 //@   entry row start: [call GenerateRequests(rg.delegate, ctx, r) as (rq, e) ; go (*liveRequestGenerator).GenerateRequests$1{out: bind_o, ctx: bind_c, requests: bind_rq2, rg: bind_g2, r: bind_r2}]
@@ -289,7 +289,7 @@ package scan
 //@   ensures ret == nil ==> v.IP == ite(hasip(data), jsonip(data), old(v.IP)) && v.Port == ite(hasport(data), jsonport(data), old(v.Port))
 
 //@ func (*fileIPPortGenerator).GenerateRequests$1
-//@   props C13 C01 C12 C07 C02 C17 C19 C04 C05 C08
+//@   props C13 C01 C12 C07 C02 C17 C19 C04 C05 C08 C11
 //@   observe (*bufio.Scanner).Scan, (*bufio.Scanner).Bytes, (*bufio.Scanner).Err, UnmarshalJSON, net.ParseIP, Close
 //@   loop 0 row eof:     [call Scan(_) as (more) ; call Err(_) as (e) ; call Close(_) ; close out] when !more && e == nil -> exit
 //@   loop 0 row eof_err: [call Scan(_) as (more) ; call Err(_) as (e) ; send? out bind_x ; call Close(_) ; close out] when !more && e != nil && x.Err == e -> exit
@@ -305,7 +305,7 @@ package scan
 
 // address file: same per-line rule; any bad line ends the stream after its one error
 //@ func (*fileIPGenerator).IPs$1
-//@   props C13 C01 C12 C07 C02 C17 C19 C04 C05 C08
+//@   props C13 C01 C12 C07 C02 C17 C19 C04 C05 C08 C11
 //@   observe (*bufio.Scanner).Scan, (*bufio.Scanner).Bytes, (*bufio.Scanner).Err, UnmarshalJSON, net.ParseIP, Close
 //@   loop 0 row eof:     [call Scan(_) as (more) ; call Err(_) as (e) ; call Close(_) ; close out] when !more && e == nil -> exit
 //@   loop 0 row eof_err: [call Scan(_) as (more) ; call Err(_) as (e) ; send? out bind_x ; call Close(_) ; close out]
@@ -321,7 +321,7 @@ package scan
 // error becomes the request's error; an excluded address is dropped; everything else passes unchanged.
 // emitted <=> not excluded (C02).
 //@ func (*filterIPRequestGenerator).GenerateRequests$1
-//@   props C13 C02 C01 C12 C07 C19 C17 C04 C05 C08
+//@   props C13 C02 C01 C12 C07 C19 C17 C04 C05 C08 C11
 //@   observe Contains
 //@   loop 0 row cancel:   [ctxdone ; close out] -> exit
 //@   loop 0 row closed:   [recv requests as (rq, false) ; close out] -> exit
@@ -338,7 +338,7 @@ package scan
 // nothing outside it ever is (confinement). FillBytes cannot panic (0 <= NET + I - 1 < 2^32).
 //@ pred IPv4Net(n *net.IPNet) = n != nil && len(n.IP) == 4 && len(n.Mask) == 4
 //@ func (*ipGenerator).IPs
-//@   props C01 C02 C04 C19 C07 C13 C17 C05 C08 C12
+//@   props C01 C02 C04 C19 C07 C13 C17 C05 C08 C12 C11
 //@   requires r != nil && (r.DstSubnet != nil ==> IPv4Net(r.DstSubnet))
 //@   ensures nosubnet: old(r.DstSubnet) == nil ==> ret0 == nil && ret1 == ErrSubnet
 //@   observe Size, newRangeIterator
@@ -347,7 +347,7 @@ package scan
 //@   entry row start:    [call Size(_) as (ones, bits) ; call newRangeIterator(bind_n) as (it, e) ; go (*ipGenerator).IPs$1{out: bind_o, it: bind_i2, ctx: bind_c}]
 //@                          when r.DstSubnet != nil && n == pow2(bits - ones) && e == nil && i2 == it && c == ctx && ret0 == o && ret1 == nil -> exit
 //@ func (*ipGenerator).IPs$1
-//@   props C01 C02 C12 C04 C19 C07 C13 C17 C05 C08
+//@   props C01 C02 C12 C04 C19 C07 C13 C17 C05 C08 C11
 //@   observe FillBytes, Next
 //@   requires it != nil && RI(it) && baseIP != nil && distinct(baseIP, it.P, it.G, it.I, it.startI, it.rangeLimit)
 //@   requires 1 <= big(it.I) && big(it.I) <= big(it.rangeLimit)
@@ -369,19 +369,19 @@ package scan
 // port generator: for each range in order, the value sent is StartPort + (I - 1) (exact in uint16 because
 // validatePorts gives StartPort <= EndPort, so 1 <= I <= n <= 65536 and the iterator cannot fail to be built)
 //@ func validatePorts
-//@   props C01 C18 C02 C07 C13 C17 C19 C04 C05 C08 C12
+//@   props C01 C18 C02 C07 C13 C17 C19 C04 C05 C08 C12 C11
 //@   modifies nothing
 //@   ensures ret == nil ==> len(ports) > 0
 //@   loop 0 invariant seen: 0 <= rangeindex + 1 && (forall k int :: 0 <= k && k <= rangeindex ==> ports[k].StartPort <= ports[k].EndPort)
 //@   ensures ordered: ret == nil ==> (forall k int :: 0 <= k && k < len(ports) ==> ports[k].StartPort <= ports[k].EndPort)
 //@ func (*portGenerator).Ports
-//@   props C01 C04 C02 C07 C13 C17 C19 C05 C08 C12
+//@   props C01 C04 C02 C07 C13 C17 C19 C05 C08 C12 C11
 //@   requires r != nil
 //@   observe validatePorts
 //@   entry row invalid: [call validatePorts(r.Ports) as (e)] when e != nil && ret0 == nil && ret1 == e -> exit
 //@   entry row start:   [call validatePorts(r.Ports) as (e) ; go (*portGenerator).Ports$1{out: bind_o, r: bind_r2, ctx: bind_c}] when e == nil && ret1 == nil && ret0 == o && r2 == r && c == ctx -> exit
 //@ func (*portGenerator).Ports$1
-//@   props C01 C12 C04 C18 C02 C07 C13 C17 C19 C05 C08
+//@   props C01 C12 C04 C18 C02 C07 C13 C17 C19 C05 C08 C11
 //@   observe newRangeIterator, (*math/big.Int).Int64, Next
 //@   requires r != nil && (forall k int :: 0 <= k && k < len(r.Ports) ==> r.Ports[k].StartPort <= r.Ports[k].EndPort)
 //@   loop 0 modifies nothing
@@ -404,7 +404,7 @@ package scan
 // carrying that address, that port and the range's source addresses; then the address generator is started again
 // exactly once. (ports x addresses, each pair once, by the fold schema over the two loops.)
 //@ func (*ipPortGenerator).GenerateRequests$1
-//@   props C01 C12 C13 C07 C02 C17 C19 C04 C05 C08
+//@   props C01 C12 C13 C07 C02 C17 C19 C04 C05 C08 C11
 //@   observe GetPort, GetIP, IPs
 //@   loop 0 row closed:   [recv ports as (p, false) ; close out] -> exit
 //@   loop 0 row porterr:  [recv ports as (p, true) ; call GetPort(p) as (port, e) ; send? out bind_x] when e != nil && x.Err == e && newobj(x) -> continue
@@ -414,7 +414,7 @@ package scan
 //@   loop 1 row passdone: [recv pre(ips) as (a, false) ; call IPs(rg.ipgen, ctx, r) as (nips, e3)] when e3 == nil && ips == nips -> loop 0
 //@   loop 1 row regenerr: [recv pre(ips) as (a, false) ; call IPs(rg.ipgen, ctx, r) as (nips, e3) ; send? out bind_x ; close out] when e3 != nil && x.Err == e3 -> exit
 //@ func (*ipPortGenerator).GenerateRequests
-//@   props C01 C02 C07 C13 C17 C19 C04 C05 C08 C12
+//@   props C01 C02 C07 C13 C17 C19 C04 C05 C08 C12 C11
 //@   observe Ports, IPs
 //@   entry row noports: [call Ports(rg.portgen, ctx, r) as (ps, e)] when e != nil && ret0 == nil && ret1 == e -> exit
 //@   entry row noips:   [call Ports(rg.portgen, ctx, r) as (ps, e) ; call IPs(rg.ipgen, ctx, r) as (is, e2)] when e == nil && e2 != nil && ret0 == nil && ret1 == e2 -> exit
@@ -424,12 +424,12 @@ package scan
 
 // port-less scans (arp, icmp): one request per address of the single pass
 //@ func (*ipRequestGenerator).GenerateRequests$1
-//@   props C01 C12 C13 C07 C19 C02 C17 C04 C05 C08
+//@   props C01 C12 C13 C07 C19 C02 C17 C04 C05 C08 C11
 //@   observe GetIP
 //@   loop 0 row closed:  [recv ips as (a, false) ; close out] -> exit
 //@   loop 0 row request: [recv ips as (a, true) ; call GetIP(a) as (dstip, e) ; send? out bind_x] when x.DstIP == dstip && x.Err == e && x.SrcIP == r.SrcIP && x.SrcMAC == r.SrcMAC && newobj(x) -> continue
 //@ func (*ipRequestGenerator).GenerateRequests
-//@   props C01 C19 C02 C07 C13 C17 C04 C05 C08 C12
+//@   props C01 C19 C02 C07 C13 C17 C04 C05 C08 C12 C11
 //@   observe IPs
 //@   entry row noips: [call IPs(rg.ipgen, ctx, r) as (is, e)] when e != nil && ret0 == nil && ret1 == e -> exit
 //@   entry row start: [call IPs(rg.ipgen, ctx, r) as (is, e) ; go (*ipRequestGenerator).GenerateRequests$1{out: bind_o, ips: bind_is2, ctx: bind_c, r: bind_r2}]
@@ -457,58 +457,58 @@ package scan
 // was given; the outer function of a stage fails with the delegate's error and otherwise spawns its worker once on
 // the channel it returns.
 //@ func NewPacketSource
-//@   props C07 C01 C19 C05 C11 C13 C16 C12
+//@   props C07 C01 C19 C05 C11 C13 C16 C12 C02 C17
 //@   ensures isptr(ret, packetSource) && asptr(ret, packetSource).reqgen == reqgen && asptr(ret, packetSource).pktgen == pktgen
 //@ func NewPacketGenerator
-//@   props C07 C01 C05 C11 C13 C16 C19 C12
+//@   props C07 C01 C05 C11 C13 C16 C19 C12 C02 C17
 //@   ensures isptr(ret, packetGenerator) && asptr(ret, packetGenerator).filler == filler
 //@ func NewPacketMultiGenerator
-//@   props C07 C01 C19 C05 C11 C13 C16 C12
+//@   props C07 C01 C19 C05 C11 C13 C16 C12 C02 C17
 //@   ensures isptr(ret, packetMultiGenerator) && asptr(ret, packetMultiGenerator).numWorkers == numWorkers && asptr(ret, packetMultiGenerator).gen != nil && asptr(ret, packetMultiGenerator).gen.filler == filler
 //@ func NewPacketEngine
-//@   props C07 C20 C01 C03 C08 C13 C14 C15 C16 C06 C09 C10 C12
+//@   props C07 C20 C01 C03 C08 C13 C14 C15 C16 C06 C09 C10 C12 C11 C19
 //@   ensures ret != nil && ret.src == ps && ret.snd == s && ret.rcv == r
 //@ func NewEngineResulter
 //@   props C07 C08 C03 C06 C14 C16 C20 C09 C10 C11 C12
 //@   ensures isptr(ret, engineResulter) && asptr(ret, engineResulter).Engine == e && asptr(ret, engineResulter).Resulter == r
 //@ func SetupPacketEngine
-//@   props C07 C20 C15 C03 C01 C08 C13 C14 C16 C06 C09 C10 C12
+//@   props C07 C20 C15 C03 C01 C08 C13 C14 C16 C06 C09 C10 C12 C11 C19
 //@   opaque packet.NewSender, packet.NewReceiver
 //@   observe NewPacketEngine, NewEngineResulter
 //@   entry row setup: [call packet.NewSender(bind_w) as (snd) ; call packet.NewReceiver(bind_rd, bind_pr) as (rcv) ; call NewPacketEngine(bind_src, snd, rcv) as (eng) ; call NewEngineResulter(bind_e2, bind_rs) as (er)]
 //@                       when w == rw && rd == rw && pr == m && src == m && rs == m && isptr(e2, PacketEngine) && asptr(e2, PacketEngine) == eng && ret == er -> exit
 //@ func NewIPPortGenerator
-//@   props C01 C02 C07 C13 C17 C19 C04 C05 C08 C12
+//@   props C01 C02 C07 C13 C17 C19 C04 C05 C08 C12 C11
 //@   ensures isptr(ret, ipPortGenerator) && asptr(ret, ipPortGenerator).ipgen == ipgen && asptr(ret, ipPortGenerator).portgen == portgen
 //@ func NewIPRequestGenerator
-//@   props C01 C19 C02 C07 C13 C17 C04 C05 C08 C12
+//@   props C01 C19 C02 C07 C13 C17 C04 C05 C08 C12 C11
 //@   ensures isptr(ret, ipRequestGenerator) && asptr(ret, ipRequestGenerator).ipgen == ipgen
 //@ func NewFileIPPortGenerator
-//@   props C01 C13 C02 C07 C17 C19 C04 C05 C08 C12
+//@   props C01 C13 C02 C07 C17 C19 C04 C05 C08 C12 C11
 //@   ensures isptr(ret, fileIPPortGenerator) && asptr(ret, fileIPPortGenerator).openFile == openFile
 //@ func NewFileIPGenerator
-//@   props C01 C13 C02 C07 C17 C19 C04 C05 C08 C12
+//@   props C01 C13 C02 C07 C17 C19 C04 C05 C08 C12 C11
 //@   ensures isptr(ret, fileIPGenerator) && asptr(ret, fileIPGenerator).openFile == openFile
 //@ func NewLiveRequestGenerator
-//@   props C19 C01 C02 C07 C13 C17 C04 C05 C08 C12
+//@   props C19 C01 C02 C07 C13 C17 C04 C05 C08 C12 C11
 //@   ensures isptr(ret, liveRequestGenerator) && asptr(ret, liveRequestGenerator).delegate == rg && asptr(ret, liveRequestGenerator).rescanTimeout == rescanTimeout
 //@ func NewFilterIPRequestGenerator
-//@   props C02 C13 C01 C07 C17 C19 C04 C05 C08 C12
+//@   props C02 C13 C01 C07 C17 C19 C04 C05 C08 C12 C11
 //@   ensures isptr(ret, filterIPRequestGenerator) && asptr(ret, filterIPRequestGenerator).delegate == delegate && asptr(ret, filterIPRequestGenerator).excludeIPs == excludeIPs
 //@ func (*filterIPRequestGenerator).GenerateRequests
-//@   props C02 C13 C01 C07 C17 C19 C04 C05 C08 C12
+//@   props C02 C13 C01 C07 C17 C19 C04 C05 C08 C12 C11
 //@   observe GenerateRequests
 //@   entry row fail:  [call GenerateRequests(rg.delegate, ctx, r) as (rq, e)] when e != nil && ret0 == nil && ret1 == e -> exit
 //@   entry row start: [call GenerateRequests(rg.delegate, ctx, r) as (rq, e) ; go (*filterIPRequestGenerator).GenerateRequests$1{out: bind_o, ctx: bind_c, requests: bind_rq2, rg: bind_g2}]
 //@                       when e == nil && ret1 == nil && ret0 == o && rq2 == rq && c == ctx && g2 == rg -> exit
 //@ func (*fileIPPortGenerator).GenerateRequests
-//@   props C01 C13 C02 C07 C17 C19 C04 C05 C08 C12
+//@   props C01 C13 C02 C07 C17 C19 C04 C05 C08 C12 C11
 //@   observe openFile
 //@   entry row fail:  [call openFile() as (in, e)] when e != nil && ret0 == nil && ret1 == e -> exit
 //@   entry row start: [call openFile() as (in, e) ; go (*fileIPPortGenerator).GenerateRequests$1{out: bind_o, ctx: bind_c, input: bind_in2, r: bind_r2}]
 //@                       when e == nil && ret1 == nil && ret0 == o && in2 == in && c == ctx && r2 == r -> exit
 //@ func (*fileIPGenerator).IPs
-//@   props C01 C13 C02 C07 C17 C19 C04 C05 C08 C12
+//@   props C01 C13 C02 C07 C17 C19 C04 C05 C08 C12 C11
 //@   observe openFile
 //@   entry row fail:  [call openFile() as (in, e)] when e != nil && ret0 == nil && ret1 == e -> exit
 //@   entry row start: [call openFile() as (in, e) ; go (*fileIPGenerator).IPs$1{out: bind_o, ctx: bind_c, input: bind_in2}]
@@ -525,7 +525,7 @@ package scan
 //@   observe Chan
 //@   entry row chan: [call Chan(e.results) as (c)] when ret == c -> exit
 //@ func isValidPort
-//@   props C13 C18 C01 C02 C07 C17 C19 C04 C05 C08 C12
+//@   props C13 C18 C01 C02 C07 C17 C19 C04 C05 C08 C12 C11
 //@   ensures ret <==> (1 <= port && port <= 65535)
 //@ func (*rangeIterator).Int
 //@   props C04 C01 C02 C08 C19
